@@ -77,7 +77,7 @@ def correspond(ctx, C):
             ties.append((c, {"what": "model and implementation disagree (tie broken)", "go": gv, "impl": m["impl"], "spec": m["spec"]}))
         if gv != m["spec"]:
             t = triggers(c) & set(known)
-            if t:
+            if t and gv == m["impl"]:   # a listed finding explains it only if the model of the code reproduces the code's answer
                 for k in t:
                     attributed[k] = attributed.get(k, 0) + 1
             else:
